@@ -45,20 +45,17 @@ Theorem C13_wf_nonvacuous : wf_sig sig_stream = true /\ wf_sig sig_star = true /
 Proof. exact wf_nonvacuous. Qed.
 Print Assumptions C13_wf_nonvacuous.
 
-(* F13c: the two scanners decide "async generator" by searching the text AsyncIterator — the Protocol in the
-   closing line, the mock in the whole signature.  A component schema whose class name contains that text
-   triggers it on ordinary operations (witness replayed on the implementation by corpus/C13/F13c.json):
-   sig_ai_ret (coroutine returning AsyncIteratorInfo): Protocol stub is a plain `def`, mock is an async
-   generator; sig_disagree (coroutine with a parameter AsyncIterator[int]): Protocol stays `async def`, the
-   mock is an async generator.  By C13_protocol_lines / C13_mock_lines these are the emitted texts. *)
-Theorem C13_refuted_F13c :
-  guard_F13c [s_AsyncIteratorInfo] = false
-  /\ wf_args sig_ai_ret = true /\ s_kind sig_ai_ret = Coroutine
-  /\ proto_kw sig_ai_ret = k_def /\ mock_gen sig_ai_ret = true
-  /\ wf_args sig_disagree = true /\ s_kind sig_disagree = Coroutine
-  /\ proto_kw sig_disagree = k_async_def /\ mock_gen sig_disagree = true.
-Proof. exact refuted_F13c. Qed.
-Print Assumptions C13_refuted_F13c.
+(* F13c fixed: for EVERY signature the two scanners agree on "async generator" (both test the closing line for
+   ") -> AsyncIterator["), and the old witnesses keep `async def` / get no `yield`. *)
+Theorem C13_scanners_agree : forall s, mock_gen s = proto_gen s.
+Proof. exact scanners_agree. Qed.
+Print Assumptions C13_scanners_agree.
+
+Theorem C13_fixed_F13c :
+  wf_sig sig_ai_ret = true /\ proto_kw sig_ai_ret = k_async_def /\ mock_gen sig_ai_ret = false
+  /\ wf_sig sig_disagree = true /\ proto_kw sig_disagree = k_async_def /\ mock_gen sig_disagree = false.
+Proof. exact fixed_F13c. Qed.
+Print Assumptions C13_fixed_F13c.
 
 (* Grouping.  Under single_tag and tags_spelled_uniformly, for ALL operation lists and all
    normalisation / scoring functions: the mock groups are the endpoint groups (same keys up to
